@@ -95,7 +95,7 @@ def run(spec):
     ok_p, plog = pika_build(spec.get('variant', 'hooks'))
     ok_h, hbin, hlog = (False, '', '')
     if ok_p:
-        ok_h, hbin, hlog = compile_harness(spec['bin'], spec['harness'], spec.get('variant', 'hooks'))
+        ok_h, hbin, hlog = compile_harness(spec['bin'], spec['harness'], spec.get('variant', 'hooks'), extra=spec.get('cc_extra', '-O1'))
     if not (ok_p and ok_h):
         p = write_replay(prop, f'build-failure-{base_seed}.txt', (plog if not ok_p else hlog))
         write_evidence(prop, tr, base_seed, {'obligations': obligations, 'discharged': discharged,
